@@ -73,6 +73,12 @@ func c01Oracle(c *Ctx, p *Parser, input []byte, extra [][]byte, res Parsed) {
 // the standard input streams for a parser: well-formed, field mutations, appended data,
 // truncations, raw bytes.  f is called for every (input, extra).
 func forInputs(c *Ctx, p *Parser, nWell, nMut, nRaw int, f func(input []byte, extra [][]byte, kind string)) {
+	forInputsW(c, p, nWell, nMut, nRaw, func(input []byte, extra [][]byte, kind string, wlen int) { f(input, extra, kind) })
+}
+
+// forInputsW also passes the length of the well-formed structure at the start of the input
+// (-1 when the input is not known to start with one).
+func forInputsW(c *Ctx, p *Parser, nWell, nMut, nRaw int, f func(input []byte, extra [][]byte, kind string, wlen int)) {
 	r := c.R
 	for i := 0; i < nWell; i++ {
 		w := p.Gen(r)
@@ -80,17 +86,17 @@ func forInputs(c *Ctx, p *Parser, nWell, nMut, nRaw int, f func(input []byte, ex
 		if p.Extra != nil {
 			extra = p.Extra(r)
 		}
-		f(w, extra, "wellformed")
-		f(cat(w, r.Bytes(1+r.Intn(40))), extra, "appended")
+		f(w, extra, "wellformed", len(w))
+		f(cat(w, r.Bytes(1+r.Intn(40))), extra, "appended", len(w))
 		if len(w) > 0 {
-			f(w[:r.Intn(len(w))], extra, "truncated")
+			f(w[:r.Intn(len(w))], extra, "truncated", -1)
 		}
 		for k := 0; k < nMut; k++ {
 			m := mutateFields(r, w)
 			if r.Intn(3) == 0 {
 				m = cat(m, r.Bytes(r.Intn(600)))
 			}
-			f(m, extra, "mutated")
+			f(m, extra, "mutated", -1)
 		}
 	}
 	for i := 0; i < nRaw; i++ {
@@ -108,7 +114,7 @@ func forInputs(c *Ctx, p *Parser, nWell, nMut, nRaw int, f func(input []byte, ex
 			b[385] = 0
 			b[386] = byte(r.Intn(12))
 		}
-		f(b, extra, "raw")
+		f(b, extra, "raw", -1)
 	}
 }
 
